@@ -238,8 +238,11 @@ def r163(ctx) -> None:
                        and any(call_name(c) == 'ResponseBad'
                                for c in n.calls()))
     okbad = False
+    # the local holding the DONE reader's result (whatever it is called)
+    done_vars = {t.id for n_ in aw_done if n_.kind == 'stmt'
+                 for t in targets_of(n_.stmt) if isinstance(t, ast.Name)}
     for b in bad_ret:
-        if runs_only_when(cfg, b, 'ok', False):
+        if any(runs_only_when(cfg, b, v_, False) for v_ in done_vars):
             okbad = True
     R.check(okbad, idle, idle.node, 'idle: anything but DONE is answered '
             'BAD', 'no `return ResponseBad` under `not ok`')
